@@ -419,6 +419,10 @@ class URL:
         if query:
             query_string = get_str_query(query) or ""
 
+        if isinstance(scheme, str):
+            # schemes are case-insensitive, the canonical form is lowercase
+            scheme = scheme.lower()
+
         if encoded:
             return build_pre_encoded_url(
                 scheme,
